@@ -1,8 +1,8 @@
 import CTV.Der.Sig
 import Mathlib.Tactic.Ring
 import Mathlib.Tactic.Linarith
-/-! Lemmas about the DER fragment of `CTV.Der`: the parser accepts exactly the canonical encodings. -/
-namespace CTV.Der
+/-! Lemmas about the DER fragment of `CTV.DerSig`: the parser accepts exactly the canonical encodings. -/
+namespace CTV.DerSig
 open CTV
 set_option linter.unusedSimpArgs false
 set_option maxRecDepth 20000
@@ -546,4 +546,4 @@ theorem parseSigPair_complete (r s : Int) (extra rest : Bytes)
   rw [parseInteger_complete s _ hs]
 
 
-end CTV.Der
+end CTV.DerSig
